@@ -642,9 +642,7 @@ def shrink_candidates(s):
 
 
 def run(tier, seed, replay=None):
-    """generic pipeline, plus two things the generic runner does not do:
-    * VERIF_KNOWN_EXTRA=<file> additionally reads proposed `known:` lines (used to try
-      /verif/fixes/C09-known.txt before the coordinator merges it into known_findings.txt);
+    """generic pipeline, plus one thing the generic runner does not do:
     * core.run_check only looks at model/implementation disagreements when *nothing* failed; C09 has a known
       finding that fails on every run, so disagreements (accepts = false, holds = true) are handled here: search
       for a failing input outside the known classes, else report `no-failing-input-found`."""
@@ -653,22 +651,10 @@ def run(tier, seed, replay=None):
     import re
     import sys
     mod = sys.modules[__name__]
-    extra = os.environ.get("VERIF_KNOWN_EXTRA")
-    if extra and os.path.exists(extra):
-        orig = core.load_findings
-
-        def patched():
-            known, fixed = orig()
-            for line in open(extra):
-                m = re.match(r"known:\s+property=(\S+)\s+class=(\S+)\s+(.*)", line.strip())
-                if m and not any(k["property"] == m.group(1) and k["class"] == m.group(2) for k in known):
-                    known.append({"property": m.group(1), "class": m.group(2), "text": m.group(3)})
-            return known, fixed
-        core.load_findings = patched
     rc = core.run_check(mod, tier, seed, replay)
     if rc != 0:
         return rc
-    evp = os.path.join(core.VERIF, "evidence", PROP + ".json")
+    evp = os.path.join(core.EVIDENCE_DIR, PROP + ".json")
     ev = json.load(open(evp))
     cov = ev["coverage"]
     if not cov.get("model_disagreements") or not cov.get("property_failures"):
